@@ -140,7 +140,7 @@ struct Outcome {
     batch: Vec<Vec<u32>>,
 }
 
-fn run_once(case: &Case, threads: usize, delay_seed: u32, decoy: bool, data: &(Vec<Tensor>, Vec<Tensor>, Vec<Tensor>, Vec<Tensor>)) -> Result<Outcome, String> {
+fn run_once(case: &Case, threads: usize, delay_seed: u32, decoy: bool, data: &(Vec<Tensor>, Vec<Tensor>, Vec<Tensor>, Vec<Tensor>, Vec<Tensor>)) -> Result<Outcome, String> {
     let spec = &case.spec;
     let mut net = build(spec)?;
     for (a, b) in &case.connects {
@@ -152,9 +152,10 @@ fn run_once(case: &Case, threads: usize, delay_seed: u32, decoy: bool, data: &(V
     net.set_objective(lib_obj(ObjK::MSE), None);
     let kind = case.kind.clone();
     catch(std::panic::AssertUnwindSafe(|| net.set_optimizer(kind.create())))?;
-    let (tx, ty, ex, ey) = data;
+    let (tx, ty, ex, ey, exv) = data;
     let (txr, tyr): (Vec<&Tensor>, Vec<&Tensor>) = (tx.iter().collect(), ty.iter().collect());
     let (exr, eyr): (Vec<&Tensor>, Vec<&Tensor>) = (ex.iter().collect(), ey.iter().collect());
+    let exvr: Vec<&Tensor> = exv.iter().collect(); // inputs of the stand-alone validate / predict_batch calls
     let plan: Vec<u32> = if delay_seed == 0 {
         vec![]
     } else {
@@ -189,8 +190,8 @@ fn run_once(case: &Case, threads: usize, delay_seed: u32, decoy: bool, data: &(V
     let r = pool.install(|| {
         catch(std::panic::AssertUnwindSafe(|| {
             let (tl, vl, va) = net.learn(&txr, &tyr, Some((&exr, &eyr, 1000)), case.batch, case.epochs, None);
-            let v = net.validate(&exr, &eyr, 0.05);
-            let pb = net.predict_batch(&exr);
+            let v = net.validate(&exvr, &eyr, 0.05);
+            let pb = net.predict_batch(&exvr);
             (tl, vl, va, v, pb)
         }))
     });
@@ -290,7 +291,19 @@ fn check(case: &Case, ev: &mut CaseEv) -> CheckResult {
     if !case.connects.is_empty() {
         ev.class("skip connections with a shared source");
     }
-    let data = (tx, ty, ex, ey);
+    // one case in six (outputs without soft-max): one input of the stand-alone validate / predict_batch calls holds a
+    // NaN ("missing value"): its loss is NaN, every other sample must still be scored the same way in every schedule
+    let mut exv = ex.clone();
+    let softmax_out = matches!(spec.layers.last(), Some(LayerSpec::Dense { act: ActK::Softmax, .. }));
+    if !softmax_out && (case.dseed >> 9) % 6 == 0 {
+        let k = (case.dseed as usize >> 13) % exv.len();
+        let d = tens::shape_dims(&exv[k].shape);
+        let mut v = tens::flat(&exv[k]);
+        v[0] = f32::NAN;
+        exv[k] = tens::build(&d, &v);
+        ev.class("one evaluation input holds a NaN");
+    }
+    let data = (tx, ty, ex, ey, exv);
     let base = match run_once(case, 1, 0, false, &data) {
         Ok(b) => b,
         Err(p) => {
@@ -350,7 +363,7 @@ impl Prop for C05 {
         1 // the delay plan is process-global; schedules are run one after the other
     }
     fn rule(&self) -> String {
-        "tape-decoded network containing a convolution, optionally a spatial feedback block, a deconvolution and a max-pool, a dense layer, optionally a flat feedback block (with and without skips, 2-4 loops), optionally two more dense layers with skip connections from a shared source, and a final dense layer (linear / sigmoid / soft-max); evaluation inputs optionally scaled to 1e-39 (subnormal intermediates); dropout on some layers; one of five optimizers; batch 2..12 (thorough 32), 8..40 (120) training samples, 65..260 (400) evaluation inputs, in one case of three 261..700 (1200) (more than one 64-chunk), non-dyadic data, 1-3 epochs with validation data. Schedules per case: 5 (thorough 10) draws from dedicated rayon pools with {2, 3, 5, 8, 16, 32, 48} threads, every second one with a tape-derived delay plan (0-200 us sleeps at the per-sample / per-prediction hooks), every third one on a pool whose threads first served a decoy network (same layer list and downstream shapes, other weights and inputs, first-layer geometry shifted by one padding step), plus a repetition of the 1-thread run. Oracle: to_bits equality of train / validation loss vectors, accuracies, all final weights, validate() and predict_batch() in order against the 1-thread run; every run builds a fresh network. Non-trivial: batch >= 4, > 64 evaluation inputs, >= 2 threads. Distinct = (architecture, batch, sizes, schedule list).".into()
+        "tape-decoded network containing a convolution, optionally a spatial feedback block, a deconvolution and a max-pool, a dense layer, optionally a flat feedback block (with and without skips, 2-4 loops), optionally two more dense layers with skip connections from a shared source, and a final dense layer (linear / sigmoid / soft-max); evaluation inputs optionally scaled to 1e-39 (subnormal intermediates), in one case of six one input of the stand-alone validate / predict_batch calls holds a NaN; dropout on some layers; one of five optimizers; batch 2..12 (thorough 32), 8..40 (120) training samples, 65..260 (400) evaluation inputs, in one case of three 261..700 (1200) (more than one 64-chunk), non-dyadic data, 1-3 epochs with validation data. Schedules per case: 5 (thorough 10) draws from dedicated rayon pools with {2, 3, 5, 8, 16, 32, 48} threads, every second one with a tape-derived delay plan (0-200 us sleeps at the per-sample / per-prediction hooks), every third one on a pool whose threads first served a decoy network (same layer list and downstream shapes, other weights and inputs, first-layer geometry shifted by one padding step), plus a repetition of the 1-thread run. Oracle: to_bits equality of train / validation loss vectors, accuracies, all final weights, validate() and predict_batch() in order against the 1-thread run; every run builds a fresh network. Non-trivial: batch >= 4, > 64 evaluation inputs, >= 2 threads. Distinct = (architecture, batch, sizes, schedule list).".into()
     }
     fn assumptions(&self) -> Vec<String> {
         vec!["rayon's work-stealing decisions are not owned by the harness: thread counts, repetitions and injected delays are explored, not interleavings; a pass means no dependence was observed".into()]
